@@ -25,17 +25,33 @@ the definition; no part of it is derived from the code under test.
 
 Enumeration: a fixed pool of 24 integer segments in [0,3]^2 (axis-parallel and diagonal, containing crossings,
 T-junctions, partial overlaps, containments, collinear touching, shared end points, some given 'backwards').
-ALL 276 pairs, ALL 2024 triples (two encodings each) and ALL 10626 quadruples (quick: one encoding, alternating; thorough: both)
-of the pool; encodings of the same geometry: 'shared' (coinciding end
-points share one column of p) and 'separate' (every segment has its own two columns); plus the 'duplicate' variant
-(a pair/triple with one segment repeated, geometry clauses only).  Thorough adds seeded sets of 4-6 pool segments.
+ALL 276 pairs and ALL 2024 triples in two encodings of the same geometry -- 'shared' (coinciding end points share one
+column of p) and 'separate' (every segment has its own two columns) --, ALL 10626 quadruples (quick: one encoding,
+alternating with the rank; thorough: both), and the 'repeated segment' variant (a pool segment given twice, same or
+reversed orientation, alone or with one further segment; geometry clauses only).  Thorough adds 20000 seeded sets of
+5-7 pool segments.
 
-Detection power (scratch copy, POREPY_SRC, one bug at a time, quick tier, all exit 1 with VIOLATION):
-  see the end of this docstring (filled in after the mutation runs).
+Unchanged tree: every case satisfies the contract (quick and thorough).
+
+Detection power (scratch copy of /repo/src under /var/tmp, POREPY_SRC=<copy>, one bug at a time, quick tier; each gave
+exit 1 with VIOLATION lines):
+  M1  coarse filter `(start_cross * end_cross < 1)` -> `< 0` (segments touching the main one are never examined)
+        -> "output edges meet only at shared end points" (T-junction / overlap / collinear-touching), "cover ..." (overlap)
+  M2  `order = np.argsort(dist)` -> `np.arange(dist.size)` (split points not sorted along the segment)
+        -> "output edges meet only at shared end points" and "the output edges cover each input segment exactly"
+  M3  `loc_tags = e[2:, ei]...` -> `e[2:, 0]...` (all edges get the tags of segment 0)
+        -> "edges carry the tags of their mapped input segment"
+  M4  `argsort = argsort[edge_map]` -> `argsort[: edge_map.size]` (mapping not permuted with the uniquification)
+        -> "edges lie inside their mapped input segment" and the tags obligation
+  M5  uniquification of edges dropped (`edge_map = np.arange(...)`)
+        -> "no duplicate output edges" (overlap / repeated segment)
+  M6  segments_2d: `if t_max - t_min < tol` -> `<= 1` (an overlap is reported by one point only)
+        -> "output edges meet only at shared end points" and "cover ..." (overlap / repeated segment)
 """
 from __future__ import annotations
 
 import itertools
+import math
 from fractions import Fraction
 
 META = {
@@ -45,8 +61,8 @@ META = {
                  "segments through the real split_intersecting_segments_2d, output checked by an exact rational subdivision checker",
     "text": "Tier B only: the postcondition (vertices are intersection points, proper edges, no duplicates, pairwise non-crossing, "
             "each edge inside its mapped input segment with that segment's tags, each input segment tiled) is evaluated on the real "
-            "function for every pair and triple of a 24-segment pool in two point encodings (exhaustive over the pool), seeded sets "
-            "of 4-6 segments in thorough. Deduction is not attempted (data-dependent loops over numpy index sets).",
+            "function for every pair, triple and quadruple of a 24-segment pool (exhaustive over the pool; two point encodings), seeded "
+            "sets of 5-7 segments in thorough. Deduction is not attempted (data-dependent loops over numpy index sets).",
     "note": "integer coordinates in [0,3]; exact checker in fractions.Fraction; output vertices snapped to exact candidates at 1e-9",
 }
 
@@ -116,17 +132,21 @@ def check_output(segs, tags, new_pts, new_e, argsort, geometry_only=False):
     """segs: list of integer segments (input, in column order); tags: list of tag tuples per input segment.
     Returns list of (clause, detail)."""
     fails = []
-    F = lambda c: (Fraction(c[0]), Fraction(c[1]))  # noqa: E731
-    S = [(F(a), F(b)) for a, b in segs]
+    S0 = [(tuple(a), tuple(b)) for a, b in segs]
     # candidates: end points and exact pairwise intersection points
     cand = set()
-    for a, b in S:
-        cand.add(a)
-        cand.add(b)
-    for (a0, a1), (b0, b1) in itertools.combinations(S, 2):
+    for a, b in S0:
+        cand.add((Fraction(a[0]), Fraction(a[1])))
+        cand.add((Fraction(b[0]), Fraction(b[1])))
+    for (a0, a1), (b0, b1) in itertools.combinations(S0, 2):
         for P in seg_isect(a0, a1, b0, b1)[1]:
-            cand.add(P)
+            cand.add((Fraction(P[0]), Fraction(P[1])))
     cand = list(cand)
+    # all exact predicates below are scale invariant: work on the integer lattice K * (coordinates)
+    K = math.lcm(*[c.denominator for P in cand for c in P])
+    _SCALE[0] = K
+    candf = [(float(c[0]), float(c[1])) for c in cand]
+    S = [((a[0] * K, a[1] * K), (b[0] * K, b[1] * K)) for a, b in S0]
     n_e = new_e.shape[1]
     if new_e.shape[0] != 2 + len(tags[0]) or len(argsort) != n_e:
         return [("shape", f"edges {new_e.shape}, argsort {len(argsort)}, expected {2 + len(tags[0])} rows")]
@@ -137,11 +157,11 @@ def check_output(segs, tags, new_pts, new_e, argsort, geometry_only=False):
         if not (0 <= i < new_pts.shape[1]):
             return [("vertices", f"edge refers to point {i} of {new_pts.shape[1]}")]
         x, y = float(new_pts[0, i]), float(new_pts[1, i])
-        best = min(cand, key=lambda c: abs(float(c[0]) - x) + abs(float(c[1]) - y))
-        if abs(float(best[0]) - x) > RTOL * scale or abs(float(best[1]) - y) > RTOL * scale:
+        j = min(range(len(cand)), key=lambda j: abs(candf[j][0] - x) + abs(candf[j][1] - y))
+        if not (abs(candf[j][0] - x) <= RTOL * scale and abs(candf[j][1] - y) <= RTOL * scale):
             fails.append(("vertices", f"vertex {i} = ({x!r},{y!r}) is not an input end point or exact intersection point"))
             return fails
-        snap[i] = best
+        snap[i] = (int(cand[j][0] * K), int(cand[j][1] * K))
     E = [(snap[int(new_e[0, k])], snap[int(new_e[1, k])]) for k in range(n_e)]
     # proper
     for k, (u, v) in enumerate(E):
@@ -158,6 +178,9 @@ def check_output(segs, tags, new_pts, new_e, argsort, geometry_only=False):
         seen[key] = k
     # pairwise non-crossing
     for (k, (u0, u1)), (l, (v0, v1)) in itertools.combinations(enumerate(E), 2):
+        if (max(u0[0], u1[0]) < min(v0[0], v1[0]) or max(v0[0], v1[0]) < min(u0[0], u1[0])
+                or max(u0[1], u1[1]) < min(v0[1], v1[1]) or max(v0[1], v1[1]) < min(u0[1], u1[1])):
+            continue  # disjoint bounding boxes (exact integer comparison)
         kind, pts, _ = seg_isect(u0, u1, v0, v1)
         if kind == "none":
             continue
@@ -203,18 +226,21 @@ def check_output(segs, tags, new_pts, new_e, argsort, geometry_only=False):
     return fails
 
 
+_SCALE = [1]
+
+
 def _s(p):
-    return f"({p[0]},{p[1]})"
+    return f"({Fraction(p[0]) / _SCALE[0]},{Fraction(p[1]) / _SCALE[0]})"
 
 
 CLAUSE = {
     "shape": "split_intersecting_segments_2d: output arrays are consistent (edge rows = 2 + tag rows, one argsort entry per edge)",
-    "vertices": "split_intersecting_segments_2d: every edge vertex is an input end point or an exact intersection point",
+    "vertices": "split_intersecting_segments_2d: edge vertices are input end points or exact intersection points",
     "proper": "split_intersecting_segments_2d: no zero-length output edge",
     "no-dup": "split_intersecting_segments_2d: no duplicate output edges",
     "non-cross": "split_intersecting_segments_2d: output edges meet only at shared end points",
-    "mapped": "split_intersecting_segments_2d: every output edge lies inside the input segment it is mapped to",
-    "tags": "split_intersecting_segments_2d: every output edge carries the tags of the input segment it is mapped to",
+    "mapped": "split_intersecting_segments_2d: edges lie inside their mapped input segment",
+    "tags": "split_intersecting_segments_2d: edges carry the tags of their mapped input segment",
     "cover": "split_intersecting_segments_2d: the output edges cover each input segment exactly",
     "raises": "split_intersecting_segments_2d: does not raise on admissible input",
 }
@@ -250,6 +276,14 @@ def config_class(segs):
         if c not in ("disjoint", "parallel-disjoint", "collinear-disjoint"):
             cl.add(c)
     return "+".join(sorted(cl)) or "no-contact"
+
+
+def worst_class(cls):
+    """the most degenerate pairwise relation present (violation signatures are kept this coarse on purpose)"""
+    for c in ("overlap", "collinear-touching", "T-junction", "crossing", "shared-endpoint"):
+        if c in cls.split("+"):
+            return c
+    return "no-contact"
 
 
 def run_case(pp, segs, encoding, geometry_only=False):
@@ -289,7 +323,7 @@ def run(rep):
         sw.case(key=(encoding, tuple(idx)), nontrivial=(cls != "no-contact"),
                 sample={"segments": segs, "encoding": encoding, "configuration": cls})
         for clause, detail in fails[:6]:
-            rep.violation(CLAUSE[clause], f"{len(segs)} segments [{encoding}] {cls}",
+            rep.violation(CLAUSE[clause], "input with " + worst_class(cls),
                           inputs={"segments": segs, "encoding": encoding, "geometry_only": geometry_only}, detail=detail, confirmed=True)
 
     with rep.sweep(
@@ -320,7 +354,7 @@ def run(rep):
                     cls = config_class(segs)
                     sw.case(key=(i, rev, j), nontrivial=True, sample={"segments": segs, "configuration": cls})
                     for clause, detail in fails[:6]:
-                        rep.violation(CLAUSE[clause], f"repeated segment, {len(segs)} segments, {cls}",
+                        rep.violation(CLAUSE[clause], "input with a repeated segment",
                                       inputs={"segments": segs, "encoding": "separate", "geometry_only": True}, detail=detail, confirmed=True)
     with rep.sweep(
         "quadruples of the pool",
